@@ -27,7 +27,7 @@ var c11ctx = []string{
 }
 
 // wrappers place the regex condition inside a larger condition
-var c11wrapN = 5
+var c11wrapN = 7
 
 type c11Case struct {
 	Atoms []int `json:"atoms"`
@@ -65,6 +65,17 @@ func (c c11Case) cond(re *regexp.Regexp) influxql.Expr {
 		return &influxql.ParenExpr{Expr: mk()}
 	case 4:
 		return &influxql.BinaryExpr{Op: influxql.AND, LHS: mk(), RHS: &influxql.ParenExpr{Expr: mk()}}
+	case 5, 6:
+		// a rewritable test with the *other* operator on another tag, before (5) or after (6) the tested one
+		other := influxql.NEQREGEX
+		if c.Neg {
+			other = influxql.EQREGEX
+		}
+		o := &influxql.BinaryExpr{Op: other, LHS: &influxql.VarRef{Val: "k"}, RHS: &influxql.RegexLiteral{Val: regexp.MustCompile("^(w|ww)$")}}
+		if c.Wrap == 5 {
+			return &influxql.BinaryExpr{Op: influxql.AND, LHS: o, RHS: mk()}
+		}
+		return &influxql.BinaryExpr{Op: influxql.AND, LHS: mk(), RHS: o}
 	}
 	return mk()
 }
@@ -122,7 +133,7 @@ func c11eval(c c11Case) ([]ev.Finding, bool, bool) {
 	lits := collectStrings(stmt.Condition, "")
 	var subst []string
 	for _, l := range lits {
-		if (c.Wrap == 1 && l == "v") || (c.Wrap == 2 && l == "w") {
+		if (c.Wrap == 1 && l == "v") || (c.Wrap == 2 && l == "w") || (c.Wrap >= 5 && (l == "w" || l == "ww")) {
 			continue
 		}
 		subst = append(subst, l)
@@ -149,14 +160,16 @@ func c11eval(c c11Case) ([]ev.Finding, bool, bool) {
 		extra = append(extra, l, l+"x", "x"+l, "x\n"+l, l+"\nx", l+"\n")
 	}
 	check := func(s string) bool {
-		m := map[string]interface{}{"h": s, "k": "v"}
-		a := influxql.EvalBool(orig, m)
-		b := influxql.EvalBool(stmt.Condition, m)
-		if a != b {
-			cause := "ctx=" + ev.SigSafe(c11ctx[c.Ctx])
-			out = append(out, ev.Finding{Sig: "match-set-changed:" + cause, Witness: wit,
-				Detail: fmt.Sprintf("for h = %q the original condition is %v, the rewritten one (%s) is %v", s, a, stmt.Condition, b), Case: c, Rank: len(src)*10 + len(s)})
-			return false
+		for _, kv := range []string{"v", "w"} {
+			m := map[string]interface{}{"h": s, "k": kv}
+			a := influxql.EvalBool(orig, m)
+			b := influxql.EvalBool(stmt.Condition, m)
+			if a != b {
+				cause := "ctx=" + ev.SigSafe(c11ctx[c.Ctx])
+				out = append(out, ev.Finding{Sig: "match-set-changed:" + cause, Witness: wit,
+					Detail: fmt.Sprintf("for h = %q, k = %q the original condition is %v, the rewritten one (%s) is %v", s, kv, a, stmt.Condition, b), Case: c, Rank: len(src)*10 + len(s)})
+				return false
+			}
 		}
 		return true
 	}
